@@ -734,6 +734,64 @@ static int sys_cmd (char *line)
         vh_out ("%s-nofile %s", tok[0], tok[1]);
       return 1;
     }
+  if (!strcmp (tok[0], "bindump") && n == 2)
+    {
+      /* bindump <object>: the bytes of the saved binary of a loaded program (in pieces: vh_out lines are short), then
+         what the file must hold according to the program in memory.  The model decodes the bytes with its own reader
+         (NV/C17/BinFile.lean) and must arrive at the same summary. */
+      object_t *ob = find_object_by_name (tok[1]);
+      char path[512], pn[300];
+      static unsigned char data[200000];
+      static char hex[6100];
+      FILE *f;
+      size_t size;
+      snprintf (pn, sizeof pn, "%s.c", tok[1]);
+      bin_path (path, sizeof path, pn);
+      f = fopen (path, "rb");
+      if (!ob || !ob->prog || !f)
+        {
+          vh_out ("bindump %s unavailable", tok[1]);
+          if (f)
+            fclose (f);
+          return 1;
+        }
+      size = fread (data, 1, sizeof data, f);
+      fclose (f);
+      for (size_t at = 0; at < size; at += 3000)
+        {
+          size_t o = 0;
+          for (size_t k2 = at; k2 < size && k2 < at + 3000; k2++)
+            o += snprintf (hex + o, sizeof hex - o, "%02x", data[k2]);
+          vh_out ("bin %s %s", tok[1], hex);
+        }
+      {
+        program_t *p = ob->prog;
+        char nm[700], inh[3000];
+        uint64_t hs = 0, hv = 0, hf = 0;
+        size_t o = 0;
+        hexs (nm, sizeof nm, p->name);
+        inh[0] = 0;
+        for (int i = 0; i < (int) p->num_inherited; i++)
+          {
+            char one[700];
+            hexs (one, sizeof one, p->inherit[i].prog->name);
+            o += snprintf (inh + o, sizeof inh - o, "%s%s", i ? "," : "", one);
+          }
+        /* order-independent: the names may have been sorted again since the file was written */
+        for (int i = 0; i < (int) p->num_strings; i++)
+          hs += fnv ((unsigned char *) p->strings[i], strlen (p->strings[i]));
+        for (int i = 0; i < (int) p->num_variables_defined; i++)
+          hv += fnv ((unsigned char *) p->variable_table[i], strlen (p->variable_table[i]));
+        for (int i = 0; i < (int) p->num_functions_defined; i++)
+          hf += fnv ((unsigned char *) p->function_table[i].name, strlen (p->function_table[i].name));
+        vh_out ("binsum %s size=%lu drv=%u cfg=%llu name=%s total=%d inh=%s str=%d:%llu var=%d:%llu fun=%d:%llu line=%d",
+                tok[1], (unsigned long) size, driver_id, (unsigned long long) config_id, nm, p->total_size,
+                p->num_inherited ? inh : "-", p->num_strings, (unsigned long long) hs, p->num_variables_defined,
+                (unsigned long long) hv, p->num_functions_defined, (unsigned long long) hf,
+                p->line_info ? (int) p->file_info[0] : 0);
+      }
+      return 1;
+    }
   if (!strcmp (tok[0], "badload") && n == 2)
     {
       /* load something that does not compile (the master reports the error), then go on in the same process */
